@@ -92,12 +92,14 @@ var gSingleBinders = map[string]func(w *ecs.World) gSingle{
 	"S0": bindSingle[G0], "S1": bindSingle[G1], "S2": bindSingle[G2], "S3": bindSingle[G3], "S4": bindSingle[G4], "S5": bindSingle[G5],
 	"S6": bindSingle[G6], "S7": bindSingle[G7], "S8": bindSingle[G8], "S9": bindSingle[G9], "S10": bindSingle[G10], "S11": bindSingle[G11],
 	"R0": bindSingle[RelA], "R1": bindSingle[RelB], "R2": bindSingle[RelC],
+	"Q0": bindSingle[*G0], "Q1": bindSingle[*G1],
 }
 
 var gSingles = map[string]gSingle{
 	"S0": mkSingle[G0](), "S1": mkSingle[G1](), "S2": mkSingle[G2](), "S3": mkSingle[G3](), "S4": mkSingle[G4](), "S5": mkSingle[G5](),
 	"S6": mkSingle[G6](), "S7": mkSingle[G7](), "S8": mkSingle[G8](), "S9": mkSingle[G9](), "S10": mkSingle[G10](), "S11": mkSingle[G11](),
 	"R0": mkSingle[RelA](), "R1": mkSingle[RelB](), "R2": mkSingle[RelC](),
+	"Q0": mkSingle[*G0](), "Q1": mkSingle[*G1](),
 }
 
 func (s *Sess) keyID(key string) int {
@@ -793,7 +795,8 @@ func init() {
 
 // c18Cfg registers all static types at shuffled positions among fillers.
 func c18Cfg(r *Rng) Cfg {
-	keys := []string{"S0", "S1", "S2", "S3", "S4", "S5", "S6", "S7", "S8", "S9", "S10", "S11", "R0", "R1", "R2"}
+	// (Q0, Q1: component types that are pointer types, next to their element types S0, S1)
+	keys := []string{"S0", "S1", "S2", "S3", "S4", "S5", "S6", "S7", "S8", "S9", "S10", "S11", "R0", "R1", "R2", "Q0", "Q1"}
 	total := len(keys) + r.Intn(ecs.MaskTotalBits-len(keys)+1)
 	if r.Chance(0.5) {
 		total = len(keys) + r.Intn(10)
@@ -832,6 +835,11 @@ func caseC18(c *Ctx) {
 		p.W[k] /= 3
 	}
 	p.Zero("RegisterType", "Reset", "QueryCheck", "CacheRegister", "CacheUnregister")
+	if c.Case%3 == 1 {
+		// component types registered while generic filters, mappers and exchanges are already in use
+		p.W["RegisterType"] = 3
+		p.Late = lateKeys(c.R, 8)
+	}
 	p.W["G.Map"], p.W["G.Single"], p.W["G.Ex"], p.W["G.Filter"] = 60, 15, 25, 45
 	gs := NewSess(cfg, Opts{Events: true, Model: c.Case%2 == 0, Track: true, Inv: c.Case%4 == 0})
 	gs.gfs = map[int]*gfState{}
